@@ -104,6 +104,19 @@ fn check_snapshot(inst: &Inst, mon: &mut SnapMon) {
             mon.problems.push(format!("parentDS mixes two updates (grandmaster identity of version {}): {:?}", k, p));
         }
     }
+    // across the data sets: one Announce of the parent updates currentDS, parentDS and timePropertiesDS under a single
+    // exclusive acquisition, so at a release point all three carry the same version
+    if gm != OWN && gm[..7] == [0xc0; 7] {
+        let k = gm[7];
+        let cur = inst.current_ds(None);
+        if cur.steps_removed != (k % 200) as u16 + 1 {
+            mon.problems.push(format!("currentDS.stepsRemoved {} is not of the update (version {}) that parentDS shows", cur.steps_removed, k));
+        }
+        match tp.current_utc_offset {
+            Some(u) if (0..=255).contains(&u) && u as u8 == k => {}
+            other => mon.problems.push(format!("timePropertiesDS (utc offset {:?}) is not of the update (version {}) that parentDS shows", other, k)),
+        }
+    }
     // time properties: utc offset k <-> time source / flags of the same k; or the local values
     match tp.current_utc_offset {
         Some(u) if (0..=255).contains(&u) => {
@@ -127,6 +140,8 @@ fn case_snapshots(t: &mut Tape) -> CaseOut {
     let mut cfg = NodeCfg::default();
     cfg.identity = OWN;
     cfg.ports = vec![PortCfg::default(); 2];
+    let path_trace = t.chance(1, 3);
+    cfg.path_trace = path_trace;
     let mut node = Node::new(cfg);
     let mon = Rc::new(RefCell::new(SnapMon::default()));
     mon.borrow_mut().own_qualities.push((248, 0xfe, 0x8000 - 23 * 256));
@@ -154,8 +169,18 @@ fn case_snapshots(t: &mut Tape) -> CaseOut {
                 seq[0] = seq[0].wrapping_add(1);
                 let mut m = announce_from(PARENT, seq[0], ann, 0, 0);
                 m.header.flags[1] = f1;
+                let mut plen = 0;
+                if path_trace && t.chance(3, 4) {
+                    // the parent's path: short, or around the 128-entry capacity of the path trace list (frames > 1024 bytes)
+                    plen = *t.pick(&[1usize, 2, 3, 64, 127, 128, 129, 130, 200]);
+                    let mut v = Vec::with_capacity(plen * 8);
+                    for i in 0..plen {
+                        v.extend_from_slice(&[0xee, 0, 0, 0, 0, 0, (i >> 8) as u8, i as u8]);
+                    }
+                    m.tlvs.push(RTlv { typ: 0x0008, value: v });
+                }
                 node.recv_general(0, &m.encode());
-                rendered.push(format!("parent announce version {}", k));
+                rendered.push(format!("parent announce version {} path entries {}", k, plen));
                 if node.state(0) == PS::Slave {
                     s1_updates += 1;
                 }
@@ -491,7 +516,7 @@ pub fn run(ctx: &Ctx) -> i32 {
         Finish {
             ctx,
             level: "exploration",
-            rule: "(monitor-*) the history generators of C03, C08, C11, C15, C05 and C14 re-run over a lock implementation that records every acquisition requested while the lock is already held (shared-in-shared included); (snapshots) dedicated boundary-clock histories in which every parent Announce carries a version number encoded redundantly in all fields of all data sets it touches, with parent_ds / time_properties_ds read at every outermost exclusive release and required to be homogeneous; (schedule-injection) real threads over an RwLock-based lock that parks set_clock_quality / set_slave_only after each of their lock releases while BMCA rounds run, compared with both serial orders. Non-trivial (monitor) = >= 2 exclusive and >= 10 total acquisitions in the history; (snapshots) >= 1 S1 update through handle_announce and > 2 snapshots; distinct by history.",
+            rule: "(monitor-*) the history generators of C03, C08, C11, C15, C05 and C14 re-run over a lock implementation that records every acquisition requested while the lock is already held (shared-in-shared included); (snapshots) dedicated boundary-clock histories in which every parent Announce carries a version number encoded redundantly in all fields of all data sets it touches, with parent_ds / current_ds / time_properties_ds read at every outermost exclusive release and required to be homogeneous, each by itself and (while parentDS shows a versioned parent) across the three; a third of the cases with path trace on and parent paths of 1..200 entries (frames beyond 1024 bytes); (schedule-injection) real threads over an RwLock-based lock that parks set_clock_quality / set_slave_only after each of their lock releases while BMCA rounds run, compared with both serial orders. Non-trivial (monitor) = >= 2 exclusive and >= 10 total acquisitions in the history; (snapshots) >= 1 S1 update through handle_announce and > 2 snapshots; distinct by history.",
             assumptions: vec![
                 "a thread can only interleave between lock acquisitions, so release points enumerate exactly the states another thread can observe; OS scheduling is not otherwise controlled".into(),
                 "BMCA cannot run concurrently with port handlers (type state), so only instance-level setters and observers are interleaved with it".into(),
